@@ -205,6 +205,23 @@ Proof.
   - destruct (Nat.eqb_spec n k) as [->|Hn]; unfold expand in *; cbn in *; rewrite <- IH; reflexivity.
 Qed.
 
+(* the grouping is the run-length encoding: every count is positive and neighbouring entries bear different names *)
+Fixpoint compactb (g : list (nat * nat)) : bool :=
+  match g with
+  | [] => true
+  | (k, c) :: r => Nat.ltb 0 c && match r with (k', _) :: _ => negb (Nat.eqb k k') | [] => true end && compactb r
+  end.
+
+Lemma group_counts_compact names : compactb (group_counts names) = true.
+Proof.
+  induction names as [|n r IH]; cbn [group_counts]; [reflexivity|].
+  destruct (group_counts r) as [|[k c] rest] eqn:E; [reflexivity|].
+  cbn [compactb] in IH. apply andb_prop in IH as [IH1 IH3]. apply andb_prop in IH1 as [IH1 IH2].
+  destruct (Nat.eqb n k) eqn:Hn.
+  - cbn [compactb]. rewrite IH2, IH3. reflexivity.
+  - cbn [compactb]. rewrite Hn, IH1, IH2, IH3. reflexivity.
+Qed.
+
 Lemma group_counts_in names n : In n (map fst (group_counts names)) <-> In n names.
 Proof.
   rewrite <- (group_counts_expand names) at 2. unfold expand.
